@@ -21,7 +21,7 @@ func TestC07(t *testing.T) {
 	mon.Main(t, mon.Check{
 		ID:    "C07",
 		Level: "exploration",
-		Rule: "hostile bytes against the real code; a panic anywhere kills the worker and is attributed to the journalled case. (A) decoders: every byte string of <=3 bytes (quick) / every 4-byte string starting with a packet type (thorough) plus PRNG strings into gbn.Deserialize, MsgData.Deserialize and the websocket envelope decoding steps (regex wrapper + protojson), each under recover. (B) live GBN handshake: a real server is fed SYN with each of the 256 window values followed by SYNACK and a DATA/ACK/NACK exchange, truncated/oversized/unknown packets at every step; a real client is fed hostile replies. (C) live data phase: for N in {1,2,3} every reachable (outstanding k, base offset) sender state, for N in {20,254} sampled states: one hostile packet is injected - ACK and NACK with every one of the 256 sequence values, DATA with every sequence value and flag bytes {0,1,2,255} - then the window bookkeeping is read through the hook (base<S, top<S, size<=N) and the conversation continues. (D) Noise: PRNG-mutated, truncated and random acts into DoHandshake (both roles, XX and KK), hostile record streams into ReadMessage, NoiseGrpcConn.Read and NoiseConn.Read. Non-trivial = every case (each injects hostile input); distinct = (kind, parameters).",
+		Rule:  "hostile bytes against the real code; a panic anywhere kills the worker and is attributed to the journalled case. (A) decoders: every byte string of <=3 bytes (quick) / every 4-byte string starting with a packet type (thorough) plus PRNG strings into gbn.Deserialize, MsgData.Deserialize and the websocket envelope decoding steps (regex wrapper + protojson), each under recover. (B) live GBN handshake: a real server is fed SYN with each of the 256 window values followed by SYNACK and a DATA/ACK/NACK exchange, truncated/oversized/unknown packets at every step; a real client is fed hostile replies. (C) live data phase: for N in {1,2,3} every reachable (outstanding k, base offset) sender state, for N in {20,254} sampled states: one hostile packet is injected - ACK and NACK with every one of the 256 sequence values, DATA with every sequence value and flag bytes {0,1,2,255} - then the window bookkeeping is read through the hook (base<S, top<S, size<=N) and the conversation continues. (D) Noise: PRNG-mutated, truncated and random acts into DoHandshake (both roles, XX and KK), hostile record streams into ReadMessage, NoiseGrpcConn.Read and NoiseConn.Read. Non-trivial = every case (each injects hostile input); distinct = (kind, parameters).",
 		Assumptions: []string{
 			"the websocket envelope is exercised through the decoding steps of websocketTransport.Recv exposed by a hook, not through a TLS websocket",
 		},
@@ -138,13 +138,19 @@ func gbnInvariant(g *gbn.GoBackNConn) string {
 }
 
 func runC07Handshake(c *mon.Case) {
-	rng := c.Rng
 	k := c.Idx / 8
-	n := uint8(k % 256)
+	// two window values per case, so that 128 handshake cases (quick has
+	// 150) cover all 256 values
+	runC07HandshakeN(c, k, uint8((2*k)%256))
+	runC07HandshakeN(c, k, uint8((2*k+1)%256))
+}
+
+func runC07HandshakeN(c *mon.Case, k int, n uint8) {
+	rng := c.Rng
 	hostile := [][]byte{{}, {1}, {2}, {2, 0}, {2, 0, 0}, {2, 0, 0, 0}, {3}, {4}, {5}, {6}, {0}, {7}, {255, 255, 255},
 		{1, n, 9, 9, 9}, {6, 1, 2, 3}, {5, 5}, bytes.Repeat([]byte{2}, 70000), {3, 255}, {4, 255}, {2, 255, 255, 255}}
 	conf := eng.GBNConf{N: 5, HSTimeout: time.Second, PingC: 2 * time.Second, PongC: time.Second, PingS: 2 * time.Second, PongS: time.Second}
-	for variant := 0; variant < 6; variant++ {
+	for variant := 0; variant < 7; variant++ {
 		script := [][]byte{}
 		desc := ""
 		switch variant {
@@ -175,6 +181,9 @@ func runC07Handshake(c *mon.Case) {
 			desc = "random packets"
 		case 5: // client side: hostile replies
 			desc = "client fed hostile replies"
+		case 6: // every window value on the re-entry path: a SYN that arrives while the server waits for the SYNACK
+			script = [][]byte{{sim.TSyn, 5}, {sim.TSyn, n}, {sim.TSynAck}, {sim.TData, 0, 1, 0, 'x'}, {sim.TAck, 0}, {sim.TNack, 1}, {sim.TData, 1, 1, 0, 'y'}}
+			desc = fmt.Sprintf("SYN(5) SYN(%d) SYNACK DATA ACK NACK DATA", n)
 		}
 		rep := map[string]any{"kind": "B", "variant": variant, "script": desc}
 		synctest.Test(c.T, func(t *testing.T) {
@@ -244,7 +253,7 @@ func runC07Handshake(c *mon.Case) {
 
 func runC07DataPhase(c *mon.Case) {
 	rng := c.Rng
-	k := c.Idx / 8 * 5 + (c.Idx%8 - 3) // dense index over the C cases
+	k := c.Idx/8*5 + (c.Idx%8 - 3) // dense index over the C cases
 	type state struct {
 		n      uint8
 		out    int // outstanding packets
